@@ -413,7 +413,14 @@ impl Db {
         self.op.set("");
         match r {
             Ok(o) => Ok(qout(&o)),
-            Err(e) => Err(qerr(&e)),
+            Err(e) => {
+                let e = qerr(&e);
+                if e.kind == "Canceled" {
+                    // a worker died (its panic is on record): restore the worker pool through the public API
+                    self.handle().recover();
+                }
+                Err(e)
+            }
         }
     }
 
